@@ -20,6 +20,9 @@
 //	closures-tail / closures-nontail   SEARCHER (closures.go): local closures made in every iteration
 //	          (self-recursive, mutual, nested, stateful ...), kept and called after the recursion; expected
 //	          values computed in Go from the definition
+//	retained-tail / retained-nontail   SEARCHER (retained.go): the objects an iteration received or made (the
+//	          rolled-up variadic array, array arguments, spread arrays, locals) kept by plain reference beyond
+//	          the reuse of the frame; expected values computed in Go from the definition of a call
 package main
 
 import (
@@ -79,6 +82,7 @@ type Spec struct {
 	Wrap     bool     `json:"wrap,omitempty"`   // f is a local of an enclosing function (calls itself through a free variable)
 	Helper   bool     `json:"helper,omitempty"` // a local is computed through a helper call
 	Dead     string   `json:"dead,omitempty"`   // a no-op prefix of the body that leaves dead code for optimizeFunc to remove
+	Retain   string   `json:"retain,omitempty"` // every iteration appends this (the variadic array, array parameters) to the global kp (round 10)
 }
 
 var tailForms = []string{"return", "and", "or", "and-merged", "or-merged", "ternary-false", "if-else", "paren", "in-loop", "forin", "spread", "stmt", "stmt-in-if"}
@@ -265,6 +269,14 @@ func genSpec(r *lib.RNG, form string) *Spec {
 	if s.Capture && r.Chance(2, 3) {
 		s.CapForm = lib.Pick(r, capForms)
 	}
+	// the objects an iteration received (the rolled-up variadic array, array arguments) kept beyond the frame's
+	// reuse by plain reference - no closure, no cell (drawn last as well)
+	if keep := s.names("arr"); form != "other-fn" && (s.Variadic || len(keep) > 0) && r.Chance(1, 2) {
+		if s.Variadic {
+			keep = append(keep, "r")
+		}
+		s.Retain = "[" + strings.Join(keep, ", ") + "]"
+	}
 	return s
 }
 
@@ -370,6 +382,9 @@ func (s *Spec) prelude(loop bool) string {
 	for _, l := range s.Locals {
 		fmt.Fprintf(&b, "\t%s := %s\n", l.Name, l.Expr)
 	}
+	if s.Retain != "" {
+		fmt.Fprintf(&b, "\tkp = append(kp, %s)\n", s.Retain)
+	}
 	if s.Capture {
 		if loop {
 			if s.Mutate != "" {
@@ -425,6 +440,9 @@ func (s *Spec) recSource(depth int) string {
 	}
 	if s.Capture {
 		b.WriteString("cl := []\n")
+	}
+	if s.Retain != "" {
+		b.WriteString("kp := []\n")
 	}
 	s.globalsDecl(depth, &b)
 	if s.Form == "other-fn" {
@@ -509,6 +527,9 @@ func (s *Spec) recSource(depth int) string {
 func (s *Spec) loopSource(depth int) string {
 	var b strings.Builder
 	b.WriteString("res2 := undefined\nrec := []\n")
+	if s.Retain != "" {
+		b.WriteString("kp := []\n")
+	}
 	s.globalsDecl(depth, &b)
 	fmt.Fprintf(&b, "loop := func(%s) {\n\tfor {\n", s.paramList(true))
 	for _, ln := range strings.SplitAfter(s.prelude(true), "\n") {
@@ -734,6 +755,7 @@ type caseInput struct {
 	Source string `json:"source"`
 	Loop   string `json:"loop,omitempty"`
 	Clos   *closCase `json:"clos,omitempty"` // a program of the closure family (closures.go)
+	Ret    *retCase  `json:"ret,omitempty"`  // a program of the retained-values family (retained.go)
 }
 
 func mnemonic(op int) string {
@@ -813,7 +835,7 @@ func checkSpec(s *Spec, depths []int, deep int) {
 	var sp2 int
 	maxfi0 := -1
 	for _, d := range depths {
-		if s.Capture && d > 100000 {
+		if (s.Capture || s.Retain != "") && d > 100000 {
 			continue
 		}
 		src := s.recSource(d)
@@ -985,6 +1007,15 @@ func checkSpec(s *Spec, depths []int, deep int) {
 					Observed: "vals = " + clip(got, 400), Expected: "vals = " + clip(want, 400), Oracle: "values recorded by the derived loop in each iteration"})
 			}
 			res.Count("capture", key, d >= 2)
+		}
+		// what every iteration kept of its variadic array / array parameters
+		if s.Retain != "" && rr.class() == "ok" {
+			if got, want := rr.Out.Globals["kp"], lr.Out.Globals["kp"]; got != want {
+				res.Violate(lib.Violation{Signature: "value-kept-by-earlier-iteration-changed:" + s.Form, Stream: stream, Input: in,
+					Observed: "kp = " + clip(got, 400), Expected: "kp = " + clip(want, 400), Oracle: "the derived loop keeps the same expression in each iteration (its variadic array is a new array literal per iteration)"})
+			}
+			res.Count("retain", key, d >= 2)
+			res.Dist("retain")
 		}
 		// the frame model on the same bytecode
 		if d <= 1000 {
@@ -1319,7 +1350,8 @@ func main() {
 	res.DriverUsed = drv != nil
 	res.Rule = "self-recursive functions from a generator over (context of the self call: 13 tail layouts, 6 non-tail ones) × (0-4 parameters, variadic list/spread/none, locals, helper calls, int/string/array accumulators, closures capturing parameters with and without later assignment, definition at top level or inside a function) × depths; " +
 		"each paired with a mechanically derived loop; non-trivial = depth >= 2 and at least one parameter or local; distinct by program text; " +
-		"closure family (closures.go): 17 call forms × 23 kinds of local closures made in every iteration (plain, self-recursive, mutually recursive, nested, stateful, in an inner loop/block, map field) × 5 ways of keeping them × depths 3-5 / 1000-1100 / 10^5, queried after the recursion, expected values computed in Go from the definition"
+		"closure family (closures.go): 17 call forms × 23 kinds of local closures made in every iteration (plain, self-recursive, mutually recursive, nested, stateful, in an inner loop/block, map field) × 5 ways of keeping them × depths 3-5 / 1000-1100 / 10^5, queried after the recursion, expected values computed in Go from the definition; " +
+		"retained-values family (retained.go): 19 call forms × 12 ways of giving the variadic part of the next call × 6 subjects (variadic array, array parameter, previous variadic array passed on, spread local, local array, int) × 7 wrappers × 5 ways of keeping them × in-place assignment × depths 3-7 / 1000-2500 / 10^5, every kept value + a checksum over all of them computed in Go"
 	if f.Replay != "" {
 		replay(f.Replay)
 		res.Write(f.Out)
@@ -1339,11 +1371,17 @@ func main() {
 		res.Write(f.Out)
 		return
 	}
+	if os.Getenv("C16_ONLY") == "retained" { // debugging aid: only the retained-values family
+		retainedFamilies(f.Seed, f.Thorough())
+		res.Write(f.Out)
+		return
+	}
 	if os.Getenv("C16_ONLY") != "random" { // debugging aid: only the generator
 		closedForms(closedDepths)
 		frameBoundary()
 		lastFrame([]int{3, 1000, 50000})
 		closureFamilies(f.Seed, f.Thorough())
+		retainedFamilies(f.Seed, f.Thorough())
 	}
 
 	rng := lib.NewRNG(f.Seed)
@@ -1408,6 +1446,10 @@ func replay(path string) {
 		seen[in.Source] = true
 		if in.Clos != nil {
 			runClosCase(*in.Clos)
+			return
+		}
+		if in.Ret != nil {
+			runRetCase(*in.Ret)
 			return
 		}
 		if in.Spec != nil {
